@@ -49,6 +49,66 @@ def func_body(src, name):
     return src[m.end():i - 1]
 
 
+def enclosing_headers(body, pos):
+    """headers (text between the previous ; { } and the opening brace) of the blocks open at body[pos]"""
+    stack, last, par = [], 0, 0
+    for i, ch in enumerate(body[:pos]):
+        if ch in '()':
+            par += 1 if ch == '(' else -1
+        elif ch == ';' and par > 0:
+            continue
+        if ch == '{':
+            stack.append((re.sub(r'\s+', ' ', body[last:i]).strip(), i))
+            last = i + 1
+        elif ch == '}':
+            if stack:
+                stack.pop()
+            last = i + 1
+        elif ch == ';':
+            last = i + 1
+    return stack
+
+
+def call_fp_rules(body):
+    """(end rule, block-branch rule, scalar-stack-branch rule) of machinize_call, or None when a frame-pointer
+    forcing statement sits in a context this translator does not know"""
+    if not body:
+        return None
+    end = blk = sc = False
+    occ = [m.start() for m in re.finditer(r'prohibit_omitting_fp \(gen_ctx\)|keep_fp_p = 1\b|gen_ctx->target_ctx->keep_fp_p = 1\b', body)]
+    if not occ:
+        return None
+    for pos in occ:
+        chain = enclosing_headers(body, pos)
+        stmt_start = max(body.rfind(';', 0, pos), body.rfind('}', 0, pos), body.rfind('{', 0, pos)) + 1
+        guard = re.sub(r'\s+', ' ', body[stmt_start:pos]).strip()
+        if not chain:
+            if guard == 'if (arg_stack_size != 0)':
+                end = True
+            else:
+                return None
+            continue
+        if guard not in ('', 'else'):
+            return None
+        heads = [h for h, _ in chain]
+        if any(re.match(r'(else )?if \(MIR_blk_type_p \(type\)\)$', h) for h in heads):
+            blk = True
+        elif heads[-1] == 'else' and len(heads) >= 2 and heads[-2].startswith('for ('):
+            # the last alternative of the per-argument chain: `else { put arguments on the stack }`
+            blkpos = chain[-1][1]
+            j, depth = blkpos + 1, 1
+            while j < len(body) and depth:
+                depth += {'{': 1, '}': -1}.get(body[j], 0)
+                j += 1
+            if 'arg_stack_size' in body[blkpos:j] and 'mem_type' in body[blkpos:j]:
+                sc = True
+            else:
+                return None
+        else:
+            return None
+    return end, blk, sc
+
+
 def switch_after(body, marker_re):
     """the text of the first `switch (...) { ... }` whose head matches marker_re"""
     m = re.search(r'switch \(%s\) \{' % marker_re, body)
@@ -293,6 +353,17 @@ def translate(repo):
         fallback('the MIR_ALLOCA case of target_machinize')
         keeps = True
     L.append('Definition gen_alloca_keeps_fp : bool := %s.' % ('true' if keeps else 'false'))
+    # which outgoing-argument paths of machinize_call force a frame pointer (slots are addressed through rsp otherwise,
+    # and machinize_call moves rsp around the call when there is a stack-argument area)
+    rules = call_fp_rules(func_body(gen, 'machinize_call'))
+    if rules is None:
+        fallback('where machinize_call forces a frame pointer for calls with a stack-argument area')
+        rules = (True, False, False)
+    L.append('(* machinize_call forces a frame pointer: at its end when the stack-argument area is non-empty / in the branch '
+             'that copies a block argument to the stack / in the branch that stores a scalar stack argument *)')
+    L.append('Definition gen_call_fp_end_rule : bool := %s.' % ('true' if rules[0] else 'false'))
+    L.append('Definition gen_call_fp_blk_rule : bool := %s.' % ('true' if rules[1] else 'false'))
+    L.append('Definition gen_call_fp_scalar_rule : bool := %s.' % ('true' if rules[2] else 'false'))
     pe = func_body(gen, 'target_make_prolog_epilog')
     want = ['leaf_p', '!alloca_p', '!block_arg_func_p', 'saved_hard_regs_size == 0', '!vararg_p', 'stack_slots_num == 0']
     ok = None
